@@ -1,16 +1,14 @@
 #!/bin/bash
-# tools/verify_seed.sh <seed-out-dir>/<Cxx> [check ids...]
-# Verifies a seeded change produced by a seeding agent:
-#  1. patch.diff applies to a scratch worktree of /repo HEAD and compiles
+# tools/verify_seed2.sh <seed-dir>/<Cxx>
+# Verifies a seeded change produced by a seeding agent, in a scratch worktree of /repo HEAD:
+#  1. patch.diff applies and compiles
 #  2. the demonstration (demo.diff + meta.json demo_cmd) FAILS with the patch and PASSES without it
-#  3. the existing tests of the touched crates still pass with the patch (nextest, baseline profile), compared
-#     with /root/.vp/BASELINE.json stable_pass
-#  4. (separately, serialized on /repo) the named checks are run with the patch applied to /repo, then undone
-# Results are appended to <dir>/verify.log; exit 0 if 1-3 hold.
+#  3. the baseline-stable tests of the touched crates still pass with the patch (nextest, baseline profile);
+#     tests that fail in the full run are re-run alone up to 3 times (timing-sensitive tests flake under load)
+# Results go to <dir>/verify.log.
 set -u
-D=$(realpath "$1"); shift
+D=$(realpath "$1")
 ID=$(basename "$D")
-CHECKS=("$@"); [ ${#CHECKS[@]} -eq 0 ] && CHECKS=("$ID")
 W=/tmp/sv-$ID-$$
 LOG=$D/verify.log
 : > "$LOG"
@@ -26,39 +24,26 @@ say "touched crates: $crates"
 demo_cmd=$(python3 -c "import json,sys;print(json.load(open('$D/meta.json'))['demo_cmd'])")
 say "demo_cmd: $demo_cmd"
 if [ -s "$D/demo.diff" ]; then git apply "$D/demo.diff" 2>>"$LOG" || { say "STEP2 demo.diff does not apply on patched tree"; exit 1; }; fi
-# demo with patch
 demo_cmd_local=$(echo "$demo_cmd" | sed -E "s#^cd [^&]*&& *##; s#/tmp/seed-[a-z0-9]*/repo#$W#g")
 ( cd "$W" && timeout 3000 bash -c "$demo_cmd_local" ) >"$D/demo_with.log" 2>&1; rc_with=$?
 say "demo with patch: rc=$rc_with"
-# existing tests with patch (demo test included, ignore it)
-fails=""
 for c in $crates; do
-  # only the tests of the baseline's stable_pass list (network-dependent integration tests hang for minutes)
-  filt=$(python3 - "$c" <<'PYEOF'
-import json,sys
-c=sys.argv[1]
-st=[s for s in json.load(open('/root/.vp/BASELINE.json'))['stable_pass'] if s.split('::')[0]==c]
-names=sorted({s.split('::',1)[1] for s in st})
-# integration-test binaries appear as crate::binary::test ; unit tests as crate::path::to::test — match on suffixes
-print(' | '.join(f'test(/{n.split("::")[-1]}$/)' for n in names) or 'all()')
-PYEOF
-)
+  filt=$(python3 /verif/tools/stable_filter.py "$c")
   ( cd "$W" && timeout 5000 cargo nextest run -p $c --no-fail-fast --tool-config-file pb:/w/lib/nextest.toml --profile pb --test-threads 8 --offline -E "$filt" ) >"$D/tests_$c.log" 2>&1
-  python3 - "$D/tests_$c.log" "$c" >>"$LOG" <<'EOF'
-import sys,re,json
-log=open(sys.argv[1]).read(); crate=sys.argv[2]
-stable=set(json.load(open('/root/.vp/BASELINE.json'))['stable_pass'])
-failed=set(re.findall(r'^\s+(?:FAIL|TIMEOUT|SIGABRT|SIGSEGV)\s+\[[^\]]*\]\s+(?:\(\S+\)\s+)?(\S+)\s+(\S+)', log, re.M))
-names={f"{a}::{b}" if not a.count('::') else f"{a}::{b}" for a,b in failed}
-bad=sorted(n for n in names if n in stable)
-summ=re.findall(r'Summary.*', log)
-print(f"tests {crate}: {summ[-1] if summ else 'NO SUMMARY'}; baseline-stable tests failing: {bad}")
-EOF
+  python3 /verif/tools/stable_failures.py "$D/tests_$c.log" "$c" >>"$LOG"
+  still=""
+  for t in $(cat "$D/tests_$c.log.bad" 2>/dev/null); do
+    short=${t##*::}
+    ok=0
+    for try in 1 2 3; do
+      if ( cd "$W" && timeout 900 cargo nextest run -p $c --no-fail-fast --tool-config-file pb:/w/lib/nextest.toml --profile pb --offline -E "test(/${short}\$/)" ) >>"$D/tests_$c.rerun.log" 2>&1; then ok=1; break; fi
+    done
+    [ $ok -eq 0 ] && still="$still $t"
+  done
+  say "baseline-stable tests failing: [${still# }]"
 done
-# demo without patch
 git apply -R "$D/patch.diff" 2>>"$LOG" || { say "cannot revert patch"; exit 1; }
 ( cd "$W" && timeout 3000 bash -c "$demo_cmd_local" ) >"$D/demo_without.log" 2>&1; rc_without=$?
 say "demo without patch: rc=$rc_without"
 if [ $rc_with -ne 0 ] && [ $rc_without -eq 0 ]; then say "DEMO OK (fails with, passes without)"; else say "DEMO NOT CONFIRMED"; fi
-cd /verif
 exit 0
